@@ -53,3 +53,23 @@ package dynblock
 //@ requires b.original != nil
 //@ assigns nothing
 //@ ensures attrs: exists raw ref :: ret0 == prepared(b, raw)
+
+// ---- iterator scoping (README: an iterator is visible in its own block and in every nested dynamic block) ----
+
+// verif:func (*expandSpec).MakeIteration
+//@ assigns nothing
+//@ ensures fresh(ret) && ret != nil && ret.IteratorName == s.iteratorName && ret.Key == key && ret.Value == value && ret.Inherited == s.inherited
+
+// MakeChild: the child inherits exactly the parent's inherited iterators plus the parent itself,
+// in a fresh map (the parent's map is not shared or written).
+// verif:func (*iteration).MakeChild
+//@ assigns nothing
+//@ ensures new: fresh(ret) && ret != nil && ret.IteratorName == iteratorName && ret.Key == key && ret.Value == value
+//@ ensures root: i == nil ==> ret.Inherited == nil
+//@ ensures freshMap: i != nil ==> fresh(ret.Inherited) && ret.Inherited != nil
+//@ ensures self: i != nil ==> has(ret.Inherited, i.IteratorName) && ret.Inherited[i.IteratorName] == i
+//@ ensures inherited: i != nil ==> (forall k string :: k != i.IteratorName && has(i.Inherited, k) ==> has(ret.Inherited, k) && ret.Inherited[k] == i.Inherited[k])
+//@ ensures nothingElse: i != nil ==> (forall k string :: has(ret.Inherited, k) ==> k == i.IteratorName || has(i.Inherited, k))
+//@ loop 1 invariant inherited != nil && fresh(inherited)
+//@ loop 1 invariant forall k string :: visited(k) ==> has(inherited, k) && inherited[k] == i.Inherited[k]
+//@ loop 1 invariant forall k string :: has(inherited, k) ==> has(i.Inherited, k)
